@@ -219,6 +219,202 @@ def static_side(chk, tier, rng):
             replay_static(chk, fm, ed, c_, rng, rows, cols, name)
 
 
+def phonon_volume_order(chk, tier, rng):
+    """Volume blocks of the phonon file listed in another order: same results or an error, never different numbers.
+
+    V1 (hand-over): the real Calculator._load is executed with the file readers replaced by symbolic data objects whose blocks come in
+        order pi; what it stores and what it hands to the QHA adapter must be the same object sequence for every pi (or it raises).
+    V2 (only if V1 fails): the data are order-dependent when they reach the QHA layer; the real QHACalculator.read_input and qha's own
+        Calculator.refine_grid / FinerGrid.refine_grid are executed on them with symbolic free energies F[t, block] (the numba fit kernel
+        replaced by the exact least-squares specification on the float design matrix).  The dense free energies are linear forms in F;
+        z3 (LRA) is asked for F in [-1,1]^n on which the two presentations differ by more than 1e-9.  A model is replayed through the
+        real Calculator on the shipped example with permuted blocks."""
+    import itertools
+    import cij.core.calculator as cc
+    import cij.core.qha_adapter as qa
+    import cij.io.traditional.models as md
+    import qha.grid_interpolation as gi
+    chk.encode(cc.Calculator._load, qa.QHACalculator.read_input, gi.FinerGrid.refine_grid, gi.VolumeExpander.interpolate_volumes)
+    nv, nq, np_, nt = 4, 1, 3, 2
+    vol_values = [420.0, 395.0, 371.0, 350.0]
+    perms = [tuple(range(nv)), tuple(reversed(range(nv))), (1, 2, 3, 0), (0, 2, 1, 3)]
+    if tier != "quick":
+        perms = list(itertools.permutations(range(nv)))
+    ctx = new_context()
+    E = [ctx.var("E%d" % i) for i in range(nv)]
+    P = [ctx.var("P%d" % i) for i in range(nv)]
+    W = symvars("w", (nv, nq, np_), positive=True)
+    F = symvars("F", (nt, nv), lo=-1, hi=1)
+
+    def blocks(perm):
+        vols = [md.VolumeData(P[r], vol_values[r], E[r], [md.QPointData((0.0, 0.0, 0.25 * j), list(W[r, j])) for j in range(nq)]) for r in perm]
+        return md.QHAInputData(nv, nq, np_, 1, np_ // 3, [md.QPointWeight((0.0, 0.0, 0.25 * j), 1.0) for j in range(nq)], vols)
+
+    def load(perm):
+        rec = {}
+        fake = PC.Obj()
+        fake.io = PC.Obj()
+        fake.io.traditional = PC.Obj()
+        fake.io.read_config = lambda fn: {"qha": {"input": "input01", "settings": {}}, "elast": {"input": "input02", "settings": {}}}
+        fake.io.apply_default_config = lambda c: c
+        fake.io.traditional.read_energy = lambda fn: blocks(perm)
+        fake.io.traditional.read_elast_data = lambda fn: "elast-data"
+
+        def adapter(settings, qha_input):
+            rec["adapter"] = qha_input
+            return "adapter"
+        calc = object.__new__(cc.Calculator)
+        with patched((cc, {"cij": fake, "QHACalculatorAdapter": adapter})):
+            calc._load("settings.yaml")
+        rec["stored"] = calc.qha_input
+        return rec
+
+    def signature(qin):
+        return [(float(v.volume), Sym.of(v.energy).key(), Sym.of(v.pressure).key(),
+                 tuple(tuple(Sym.of(x).key() for x in q.modes) for q in q_points_of(v))) for v in qin.volumes]
+
+    def q_points_of(v):
+        return v.q_points
+
+    t0 = time.time()
+    handover = {}
+    raised = {}
+    for perm in perms:
+        try:
+            rec = X.run_single_path(lambda: load(perm), name="C13:_load")
+            handover[perm] = (signature(rec["adapter"]), signature(rec["stored"]))
+        except SymError as e:
+            chk.inconclusive("phonon volume-block order: hand-over %s" % (perm,), str(e))
+            return
+        except Exception as e:
+            raised[perm] = e
+    base = handover.get(perms[0])
+    differing = [pm for pm in perms if pm in handover and handover[pm] != base]
+    if base is not None and not differing:
+        chk.obligation("phonon volume blocks in %d orders: Calculator._load stores and hands to the QHA layer the same block sequence "
+                       "(or rejects the order)" % len(perms), "unsat", seconds=round(time.time() - t0, 2), kind="wiring",
+                       detail=dict(rejected=[list(pm) for pm in raised]))
+        return
+    # V2: the order reaches the QHA layer -- is the QHA grid refinement invariant under it?
+    from symnum.exactlift import exact_lstsq
+
+    def fit_exact(strains_sparse, free_energies, strains_dense, order=3):
+        xs = numpy.vander(numpy.asarray(strains_sparse, dtype=float), order + 1, increasing=True)
+        xd = numpy.vander(numpy.asarray(strains_dense, dtype=float), order + 1, increasing=True)
+        fe = numpy.asarray(free_energies, dtype=object)
+        out = numpy.empty((fe.shape[0], xd.shape[0]), dtype=object)
+        for i in range(fe.shape[0]):
+            a, _, _, _ = exact_lstsq(xs, fe[i])
+            for j in range(xd.shape[0]):
+                out[i, j] = sum((Sym.of(a[k]) * Fraction(float(xd[j, k])) for k in range(order + 1)), Sym({}))
+        return out
+
+    def refine(qin, perm):
+        calc = object.__new__(qa.QHACalculator)
+        calc._settings = {"P_MIN": 0.0, "p_min_modifier": 1.0, "NTV": 5, "order": 3, "volume_ratio": 1.2}
+        qa.QHACalculator.read_input(calc, qin)
+        if calc._volumes.dtype == object:
+            calc._volumes = calc._volumes.astype(float)
+        calc.__dict__["_vib_ry"] = numpy.array([[F[t, r] for r in perm] for t in range(nt)], dtype=object)
+        with patched((gi, {"apply_finite_strain_fitting": fit_exact})):
+            calc.refine_grid()
+        return numpy.asarray(calc._finer_volumes_bohr3, dtype=float), numpy.asarray(calc._f_tv_ry, dtype=object)
+
+    try:
+        settings_ok = True
+        ref_v, ref_f = X.run_single_path(lambda: refine(blocks(perms[0]), perms[0]), name="C13:refine")
+    except Exception as e:
+        chk.inconclusive("phonon volume-block order: QHA grid refinement (base order)", "%s: %s" % (type(e).__name__, e))
+        return
+    bad = None
+    for perm in differing:
+        order_seen = [vol_values.index(x[0]) for x in handover[perm][0]]
+        try:
+            v, f = X.run_single_path(lambda: refine(blocks(perm), tuple(order_seen)), name="C13:refine")
+        except Exception:
+            continue     # rejected with an error: allowed
+        if numpy.abs(v - ref_v).max() > 1e-9 * numpy.abs(ref_v).max():
+            bad = (perm, "the refined volume grid itself differs", None)
+            break
+        for idx in numpy.ndindex(*ref_f.shape):
+            d = Sym.of(f[idx]) - Sym.of(ref_f[idx])
+            tol = Fraction(1, 10 ** 9)
+            enc = Z.Encoder()
+            t = enc.term(d)
+            import z3 as _z3
+            cons = [_z3.Or(t > _z3.RealVal(str(tol)), t < -_z3.RealVal(str(tol)))] + enc.side_conditions()
+            verdict, env = Z.check(cons, name="C13:volume-order:F(T,V)", enc=enc, logic="QF_LRA")
+            if verdict != "unsat":
+                bad = (perm, "dense free energy F[%d,%d] differs by more than 1e-9 for free energies in [-1,1]" % idx, env)
+                break
+        if bad:
+            break
+    chk.obligation("phonon volume blocks in %d orders: the order reaches the QHA layer; qha's grid refinement (reference volumes[0] vs "
+                   "largest volume) gives the same dense free energies" % len(perms), "unsat" if not bad else "sat",
+                   seconds=round(time.time() - t0, 2), kind="identity(LRA, exact least squares)", logic="QF_LRA",
+                   detail=dict(order=list(bad[0]), what=bad[1]) if bad else None)
+    if bad:
+        replay_volume_order(chk, bad[0], bad[1])
+
+
+def replay_volume_order(chk, perm, what):
+    """Real Calculator on the shipped akimotoite example with the volume blocks of input01 re-ordered (lsq_poly, the packaged default)."""
+    import shutil
+    import tempfile
+    import yaml
+    import cij.io.traditional.qha_input as qi
+    from cij.core.calculator import Calculator
+    src = os.path.join(os.environ.get("CIJ_REPO", "/repo"), "examples", "akimotoite")
+    if not os.path.exists(os.path.join(src, "input01")):
+        chk.harness_error("C13 volume order: example files missing, '%s' not replayed" % what)
+        return
+
+    def run(order):
+        d = tempfile.mkdtemp(prefix="c13vo_")
+        try:
+            data = qi.read_energy(os.path.join(src, "input01"))
+            vols = list(data.volumes)
+            if order == "reversed":
+                vols = vols[::-1]
+            elif order == "rotated":
+                vols = vols[1:] + vols[:1]
+            qi.write_energy(os.path.join(d, "input01"), data._replace(volumes=vols))
+            shutil.copy(os.path.join(src, "input02"), os.path.join(d, "input02"))
+            cfg = yaml.safe_load(open(os.path.join(src, "settings.yaml")))
+            cfg["elast"]["settings"]["mode_gamma"] = {"interpolator": "lsq_poly", "order": 3}
+            cfg["qha"]["settings"]["NT"] = 6
+            with open(os.path.join(d, "settings.yaml"), "w") as fp:
+                yaml.safe_dump(cfg, fp)
+            c = Calculator(os.path.join(d, "settings.yaml"))
+            out = {"QHA pressure P(T,V)": numpy.array(c.qha_calculator.volume_base.pressures)}
+            for k, v in c.modulus_adiabatic.items():
+                out["adiabatic c%d%d(T,V)" % k.v] = numpy.array(v)
+            return numpy.array(c.qha_calculator.v_array), out
+        finally:
+            shutil.rmtree(d, ignore_errors=True)
+    import logging
+    logging.disable(logging.CRITICAL)
+    try:
+        with numpy.errstate(all="ignore"):
+            v0, base = run("original")
+            for order in ("reversed", "rotated"):
+                try:
+                    v1, alt = run(order)
+                except Exception:
+                    continue      # rejected with an error: allowed by the property
+                for k in base:
+                    a, b = base[k], alt[k]
+                    if a.shape != b.shape or v0.shape != v1.shape or numpy.nanmax(numpy.abs(a - b)) > 1e-6 * numpy.nanmax(numpy.abs(a)):
+                        rel = float(numpy.nanmax(numpy.abs(a - b)) / numpy.nanmax(numpy.abs(a))) if a.shape == b.shape else None
+                        chk.violation("phonon:volume-order", "examples/akimotoite with the volume blocks of input01 listed in %s order (lsq_poly): no error, "
+                                      "but %s differs by %s relative from the original order" % (order, k, "%.3g" % rel if rel is not None else "shape"),
+                                      dict(order=order, quantity=k, relative=rel))
+                        return
+    finally:
+        logging.disable(logging.NOTSET)
+    chk.harness_error("C13 volume order: '%s' did not reproduce on the real calculator" % what)
+
+
 def static_reader_side(chk, tier, rng):
     """Rows of the static file (modulus block and lattice block permuted together) in any order: the real reader must return the same
     physical records -- volume, its moduli and its lattice parameters stay together.  Numeric fields are opaque tokens (C17 mechanism);
@@ -371,6 +567,7 @@ def main():
     phonon_side(chk, tier, rng)
     static_side(chk, tier, rng)
     static_reader_side(chk, tier, rng)
+    phonon_volume_order(chk, tier, rng)
     chk.bound(shape="nq=3, np=3 (thorough np=6, nv=2)", q_permutations="all of q-points 2..nq", mode_permutations="seeded, Gamma acoustic slots fixed",
               static="6 volumes, rows permuted with row 0 (strain reference) first")
     chk.stub("numpy.polyfit -> exact least squares on the concrete Vandermonde matrix (static fit); eigh -> exact lift")
